@@ -5,6 +5,7 @@ import (
 	"fmt"
 	"math"
 	"reflect"
+	"runtime"
 
 	"gopkg.in/typ.v4/slices"
 	"verif/lib/enum"
@@ -192,6 +193,59 @@ func main() {
 					e.Fail("Windowed|panic", rp, "Windowed(n=%d zero-size elements, size=%d) panicked: %s", n, size, m)
 				} else if len(wins) != wantW {
 					e.Fail("Windowed|sequence", rp, "Windowed(n=%d zero-size elements, size=%d) returned %d windows, want %d", n, size, len(wins), wantW)
+				}
+			}
+		}
+	}
+	// a callback that panics at its k-th invocation (or leaves through runtime.Goexit), the caller
+	// recovers - and the NEXT call of every Func variant must deliver the full sequence again (state kept
+	// between calls: a recycled cursor, a scratch buffer)
+	{
+		base := make([]int, 11)
+		for i := range base {
+			base[i] = 100 + i
+		}
+		type fn struct {
+			name string
+			run  func(s []int, size int, cb func([]int))
+			ref  func(s []int, size int) [][]int
+		}
+		fns := []fn{
+			{"ChunkFunc", func(s []int, size int, cb func([]int)) { slices.ChunkFunc(s, size, cb) }, refChunks},
+			{"WindowedFunc", func(s []int, size int, cb func([]int)) { slices.WindowedFunc(s, size, cb) }, refWindows},
+			{"PairsFunc", func(s []int, _ int, cb func([]int)) { slices.PairsFunc(s, func(a, b int) { cb([]int{a, b}) }) }, func(s []int, _ int) [][]int { return refWindows(s, 2) }},
+		}
+		for _, bad := range fns {
+			for k := 1; k <= 5; k++ {
+				for _, goexit := range []bool{false, true} {
+					done := make(chan bool)
+					go func() { // its own goroutine: Goexit must not end the check
+						defer close(done)
+						defer func() { recover() }()
+						calls := 0
+						bad.run(base, 2, func([]int) {
+							calls++
+							if calls == k {
+								if goexit {
+									runtime.Goexit()
+								}
+								panic("callback failed")
+							}
+						})
+					}()
+					<-done
+					for _, good := range fns {
+						for _, size := range []int{2, 3} {
+							e.Input(true)
+							e.Call()
+							var got [][]int
+							good.run(base, size, func(c []int) { got = append(got, append([]int{}, c...)) })
+							if w := good.ref(base, size); !same(got, w) {
+								e.Fail(good.name+"|after-panic", map[string]any{"failed_call": bad.name, "at_invocation": k, "goexit": goexit, "next_call": good.name, "size": size},
+									"after %s's callback failed at its invocation %d (goexit=%v, recovered by the caller), %s(n=11,size=%d) called back with %v, want %v", bad.name, k, goexit, good.name, size, got, w)
+							}
+						}
+					}
 				}
 			}
 		}
